@@ -304,7 +304,7 @@ pub fn run(ctx: &mut Ctx) {
         "get_info of the store cannot fail (it returns no Result)".into(),
         "complete record = private scalar valid and matching the stored public coordinates".into(),
     ];
-    let n = ctx.tier.pick(600u32, 20_000u32);
+    let n = ctx.tier.pick(600u32, 200_000u32);
     match search(ctx, 7, n, scenario(), check_scenario) {
         Search::Pass => {}
         Search::Fail(sc, msg) => {
@@ -317,7 +317,7 @@ pub fn run(ctx: &mut Ctx) {
         }
     }
     let combos = (scenario(), proptest::collection::btree_map(0usize..4, proptest::sample::select(CODES.to_vec()), 2..4), proptest::option::weighted(0.4, 0usize..12)).prop_map(|(sc, faults, cancel_after)| Run { sc, faults, cancel_after });
-    let n = ctx.tier.pick(3_000u32, 150_000u32);
+    let n = ctx.tier.pick(3_000u32, 2_000_000u32);
     match search(ctx, 17, n, combos, check_run) {
         Search::Pass => {}
         Search::Fail(r, msg) => ctx.violation("combinations", json!(r), &msg),
